@@ -114,6 +114,18 @@ func exactFilter2(l *latticeSolid2, extra func() bool) func(*model2d.Rect) bool 
 	}
 }
 
+// scaledLattice2 is the lattice solid in units of k (a power of two, so scaling is exact)
+type scaledLattice2 struct {
+	l *latticeSolid2
+	k float64
+}
+
+func (s scaledLattice2) Min() model2d.Coord { return s.l.Min().Scale(s.k) }
+func (s scaledLattice2) Max() model2d.Coord { return s.l.Max().Scale(s.k) }
+func (s scaledLattice2) Contains(c model2d.Coord) bool {
+	return s.l.Contains(c.Scale(1 / s.k))
+}
+
 type ms2Variant struct {
 	name string
 	run  func(l *latticeSolid2, rng *rand.Rand) (*model2d.Mesh, int)
@@ -181,6 +193,12 @@ func ms2Variants() map[string]ms2Variant {
 		}, nil},
 		{"MSSearch5", func(l *latticeSolid2, _ *rand.Rand) (*model2d.Mesh, int) {
 			return model2d.MarchingSquaresSearch(l, 1, 5), 64
+		}, nil},
+		{"MSSearch5tiny", func(l *latticeSolid2, _ *rand.Rand) (*model2d.Mesh, int) {
+			// the same problem at scale 2^-24 (spacing 6e-8): the answer must scale with it
+			k := math.Ldexp(1, -24)
+			m := model2d.MarchingSquaresSearch(scaledLattice2{l, k}, k, 5)
+			return m.Scale(1 / k), 64
 		}, nil},
 		{"MSSearchFilter3", func(l *latticeSolid2, _ *rand.Rand) (*model2d.Mesh, int) {
 			return model2d.MarchingSquaresSearchFilter(l, exactFilter2(l, nil), 1, 3), 16
